@@ -26,7 +26,8 @@ class RecQueue(asyncio.Queue):
         self.events = events
 
     def get_nowait(self):
-        self.events.append(("get", CLOCK.now_us(), _CUR.get()))
+        ev = ["get", CLOCK.now_us(), _CUR.get(), self.empty()]
+        self.events.append(ev)
         return super().get_nowait()
 
 
@@ -38,9 +39,17 @@ class RecList(list):
         self.events = events
 
     def __len__(self):
+        n = super().__len__()
         if _CUR.get() is not None:
-            self.events.append(("dpoll", CLOCK.now_us(), _CUR.get()))
-        return super().__len__()
+            self.events.append(("dpoll", CLOCK.now_us(), _CUR.get(), n == 0))
+        return n
+
+
+    def append(self, m):  # noqa: A003
+        if _CUR.get() is not None:
+            # dead-lettering by a consumer's poll (c None marks it as "not a poll" for polls_of; the barrier it sets is harmless)
+            self.events.append(("dead_append", CLOCK.now_us(), None, num(m.key.id_)))
+        return super().append(m)
 
 
 class RecDict(dict):
@@ -51,12 +60,13 @@ class RecDict(dict):
         self.events = events
 
     def __len__(self):
+        n = super().__len__()
         if _CUR.get() is not None:
-            self.events.append(("dpoll", CLOCK.now_us(), _CUR.get()))
-        return super().__len__()
+            self.events.append(("dpoll", CLOCK.now_us(), _CUR.get(), n == 0))
+        return n
 
     def items(self):
-        self.events.append(("update", CLOCK.now_us(), _CUR.get()))
+        self.events.append(("update", CLOCK.now_us(), _CUR.get(), False))
         return super().items()
 
 
@@ -73,6 +83,7 @@ class MemWorld:
         self.cspec: dict[int, tuple] = {}
         self.intern = ct.Interner()
         self.book: dict[int, int] = {}      # id -> consumer it was last delivered to (harness bookkeeping)
+        self.n_compressed = 0
 
     async def setup(self, consumers: dict) -> None:
         for q in self.qs:
@@ -205,7 +216,8 @@ class _Trace(list):
         self.base, self.mw = base, mw
 
     def append(self, e):  # noqa: A003
-        e["after"] = self.mw.abstract()
+        if "after" not in e or e["after"] is None:
+            e["after"] = self.mw.abstract()
         self.base.append(e)
 
 
@@ -243,7 +255,7 @@ async def exec_ops(mw: MemWorld, ops: list, loop, terms: list, obs: list, trace:
                           "held_before": held_before.get(i)})
         elif kind == "requeue":
             i, q = o["id"], o["queue"]
-            p = build_params(o["params"], now)
+            p = o.get("params_obj") or build_params(o["params"], now)
             k = key(f"m{i}", f"t{o['topic']}", f"q{q}", o.get("prio", 5))
             payload = f"p{i}r{o.get('rev', 1)}"
             _, cancelled = await run_cut(mb.requeue(k, payload, p), o.get("cut"))
@@ -283,7 +295,7 @@ async def exec_ops(mw: MemWorld, ops: list, loop, terms: list, obs: list, trace:
                 obs.append(delivered if j == len(polls) - 1 else 0)
             trace.append({"op": "consume", "c": c, "queue": q, "cat": cat, "topics": topics, "t": now, "polls": polls,
                           "delivered": delivered, "returned": got is not None, "got": got,
-                          "t_return": CLOCK.now_us()})
+                          "t_return": CLOCK.now_us(), "dead_appends": dead_appends(mw.events)})
         elif kind == "consume_with_put":
             # a consumer is already polling when a message is enqueued `after` seconds later
             c = o["c"]
@@ -298,7 +310,8 @@ async def exec_ops(mw: MemWorld, ops: list, loop, terms: list, obs: list, trace:
                 k = key(f"m{o['id']}", f"t{o['topic']}", f"q{o['queue']}", 5)
                 await mb.enqueue(k, f"p{o['id']}", p)
                 p_holder["p"], p_holder["t"] = p, tnow
-                mw.events.append(("put_done", tnow, None))
+                p_holder["after"] = mw.abstract()
+                mw.events.append(("put_done", tnow, None, False))
 
             async def do_consume():
                 tok = _CUR.set(c)
@@ -314,14 +327,14 @@ async def exec_ops(mw: MemWorld, ops: list, loop, terms: list, obs: list, trace:
                 mw.book[num(got[0].id_)] = c
             delivered = num(got[0].id_) if got is not None else 0
             tl = "[]" if topics is None else ct.zlist(topics)
-            evs = list(mw.events)
+            evs = [tuple(ev) for ev in mw.events]
             cut_at = next((k_ for k_, ev in enumerate(evs) if ev[0] == "put_done"), len(evs))
             before_p = polls_of(mw, evs[:cut_at])
             all_p = polls_of(mw, evs)
             after_p = all_p[len(before_p):]
-            for (_, t, u) in before_p:
+            for j, (_, t, u) in enumerate(before_p):
                 terms.append(f"(OPoll {c} {q} {CAT_TERM[cat]} {tl} {ct.Z(t)} {ct.B(u)})")
-                obs.append(0)
+                obs.append(delivered if (not after_p and j == len(before_p) - 1) else 0)
             if "p" in p_holder:
                 terms.append(f"(OPut {mw.msg_term(o['id'], o['topic'], o['queue'], 5, 'p%d' % o['id'], p_holder['p'])} {ct.Z(p_holder['t'])})")
                 terms[-1] = "Q" + terms[-1]     # Quiet: no snapshot right after a concurrent put
@@ -330,11 +343,11 @@ async def exec_ops(mw: MemWorld, ops: list, loop, terms: list, obs: list, trace:
                 terms.append(f"(OPoll {c} {q} {CAT_TERM[cat]} {tl} {ct.Z(t)} {ct.B(u)})")
                 obs.append(delivered if j == len(after_p) - 1 else 0)
             trace.append({"op": "put", "id": o["id"], "t": p_holder.get("t", now), "applied": "p" in p_holder, "cancelled": False,
-                          "params": p_holder.get("p")})
+                          "params": p_holder.get("p"), "after": p_holder.get("after")})
             trace.append({"op": "consume", "c": c, "queue": q, "cat": cat, "topics": topics, "t": now,
                           "polls": [(t, u) for (_, t, u) in all_p], "delivered": delivered, "returned": got is not None,
                           "got": got, "t_return": CLOCK.now_us(), "n_updates": sum(1 for (_, _, u) in all_p if u),
-                          "put_at": p_holder.get("t")})
+                          "put_at": p_holder.get("t"), "dead_appends": dead_appends(mw.events)})
         elif kind == "consume_many":
             # several consumers polling concurrently: polls interleave, each poll is attributed through a context variable
             mw.events.clear()
@@ -369,7 +382,7 @@ async def exec_ops(mw: MemWorld, ops: list, loop, terms: list, obs: list, trace:
                 obs.append(d)
             trace.append({"op": "consume_many", "cs": o["cs"], "t": now, "polls": polls,
                           "delivered": {c: (None if r is None else num(r[0].id_)) for c, r in results.items()},
-                          "new_held": new, "t_return": CLOCK.now_us()})
+                          "new_held": new, "t_return": CLOCK.now_us(), "dead_appends": dead_appends(mw.events)})
         elif kind == "finish":
             c = o["c"]
             q, cat, topics = mw.cspec[c]
@@ -408,18 +421,37 @@ async def run_history(hist: dict, loop) -> dict:
     return finish_history(mw, terms, obs, trace)
 
 
+def dead_appends(events: list) -> list:
+    """(time, id) of every message a consumer's poll put on the dead-letter list."""
+    return [(ev[1], ev[3]) for ev in events if ev[0] == "dead_append"]
+
+
 def polls_of(mw: MemWorld, events: list) -> list:
-    """(consumer, time, upd) for every poll, in the order they really happened."""
+    """(consumer, time, upd) for every poll, in the order they really happened.  A run of consecutive polls of one
+    consumer that found its container empty and made no update pass is reported as its last poll only: on an empty
+    container a poll changes nothing but the clock high-water mark, so the model state after the run and after that one
+    poll are equal (and if the model's container is not empty there, that poll disagrees)."""
     upd: dict = {}
     polls = []
-    for name, t, c in events:
+    idle = []        # parallel to polls: was this an empty poll without update
+    barrier = False
+    for name, t, c, empty in events:
         if c is None:
+            barrier = True       # something else happened (a concurrent enqueue): never merge polls across it
             continue
         cat = mw.cspec[c][1]
         if name == "update":
             upd[c] = True
         elif (name == "get" and cat == 0) or (name == "dpoll" and cat != 0):
-            polls.append((c, t, upd.pop(c, False)))
+            u = upd.pop(c, False)
+            is_idle = bool(empty) and not u
+            if is_idle and polls and idle[-1] and polls[-1][0] == c and not barrier:
+                polls[-1] = (c, t, False)
+                mw.n_compressed += 1
+            else:
+                polls.append((c, t, u))
+                idle.append(is_idle)
+            barrier = False
     return polls
 
 
@@ -481,9 +513,19 @@ async def run_generated(hist: dict, loop, rng) -> dict:
                 continue
             i = rng.choice(sorted(held))
             c, q = held[i]
-            kind = rng.choice(["ack", "nack", "reject", "reject", "requeue", "requeue"])
+            kind = rng.choice(hist.get("terminal_kinds") or ["ack", "nack", "reject", "reject", "requeue", "requeue"])
             cut = rng.choice([0, 1, 2, 3, 4, 5]) if rng.random() < 0.15 else None
-            if kind == "requeue":
+            if kind in ("requeue_retry", "requeue_resched"):
+                # what the worker does: the real Parameters methods on the held message's own parameters
+                held_msg = next(m for m in mw.w.mb.queues[f"q{q}"].processing if num(m.key.id_) == i)
+                pp = held_msg.parameters
+                if kind == "requeue_retry":
+                    pobj = pp._prepare_retry(timedelta(microseconds=rng.choice([0, 1000, 3000, 2 * S])))
+                else:
+                    pobj = pp._prepare_reschedule()
+                o = {"op": "requeue", "id": i, "queue": q, "topic": hist["known"][i][1], "params": {}, "params_obj": pobj,
+                     "cut": cut, "rev": rng.randint(1, 9)}
+            elif kind == "requeue":
                 spec = {"tried": rng.randint(0, 2), "max": 2}
                 if rng.random() < 0.6:
                     spec["next"] = rng.choice([-5, 0, 1500, 40000, 3 * S])
